@@ -91,6 +91,12 @@ func (p *TriggerPool) sendJobsForExecution(numJobs int) {
 
 	p.jobsAvailableCond.L.Unlock()
 
+	// once the max-iterations limit has been reached, pending work can no longer start because of
+	// the limit alone: it is discarded silently instead of being reported as dropped
+	if p.manager.MaxIterationsReached() {
+		return
+	}
+
 	for range jobsDiscarded {
 		p.manager.activeScenario.RecordDroppedIteration()
 	}
